@@ -315,7 +315,7 @@ func runHistories(r *ev.Run) {
 	alpha := alphabet(r.Thorough())
 	depth := 6
 	if r.Thorough() {
-		depth = 8
+		depth = 9
 	}
 	r.Bounds["history_depth"] = depth
 	var names []string
